@@ -528,7 +528,9 @@ def r09_12_months_between_is_checked_by_addition(ctx: Ctx) -> RuleResult:
         if f is not None and not any(isinstance(n, ast.Raise) and "NotImplementedError" in unparse(n) for n in own_nodes(f.node)):
             rr.inst()
             ps = [p.arg for p in f.value_params]
-            adds = [n for n in own_nodes(f.node) if isinstance(n, ast.Call) and isinstance(n.func, ast.Attribute) and n.func.attr == "_add_months" and n.args and isinstance(n.args[0], ast.Name) and n.args[0].id == ps[0]]
+            # the probe may live in a local helper of the function (e.g. one that also catches the overflow of an overshoot)
+            adds = [n for n in ast.walk(f.node) if isinstance(n, ast.Call) and isinstance(n.func, ast.Attribute) and n.func.attr == "_add_months" and n.args and isinstance(n.args[0], ast.Name) and n.args[0].id == ps[0]]
+            helpers = {d.name: d for d in ast.walk(f.node) if isinstance(d, ast.FunctionDef) and d is not f.node and any(a in list(ast.walk(d)) for a in adds)}
             if not adds:
                 rr.fail(f.qual, f"never performs `_add_months({ps[0]}, ...)`: the estimate is corrected without the clamped addition it has to be the inverse of", ctx.loc(f))
             else:
@@ -545,6 +547,10 @@ def r09_12_months_between_is_checked_by_addition(ctx: Ctx) -> RuleResult:
                 for t in tests:
                     names = {x.id for x in ast.walk(t) if isinstance(x, ast.Name)}
                     has_add = bool(names & holders) or any(x in adds for x in ast.walk(t))
+                    for x in ast.walk(t):
+                        if isinstance(x, ast.Call) and isinstance(x.func, ast.Name) and x.func.id in helpers:
+                            has_add = True
+                            names |= {y.id for y in ast.walk(helpers[x.func.id]) if isinstance(y, ast.Name)}
                     if has_add and ps[1] in names:
                         ok = True
                 if ok:
@@ -851,4 +857,58 @@ def r09_17_computed_values_overflow(ctx: Ctx) -> RuleResult:
             rr.ok()
         else:
             rr.fail(f.qual, f"`{unparse(bad)[:80]}` applies the argument checker (ValueError) to the computed `{bad.args[1].id}`: a result outside the calendar must raise OverflowError, which callers catch", ctx.loc(f, bad))
+    return rr
+
+
+# ------------------------------------------------------------------------------------------- R09.18 overshoot probes stay inside the calendar
+
+
+@rule("C09")
+def r09_18_overshoot_probes_are_caught(ctx: Ctx) -> RuleResult:
+    """`_months_between` answers "how many whole months from start to end" for two dates INSIDE the calendar, so it always has an
+    answer.  Implementations that search for it (the Hebrew calendars: estimate, then step until the addition overshoots `end`)
+    probe `start + n months` for an n that lands BEYOND `end` by construction; when `end` lies in the last (first) month of the
+    calendar that probe is outside the calendar and `_add_months` raises OverflowError.  Every `_add_months` probe in a loop
+    condition of a `_months_between` must therefore run under a handler for OverflowError (directly or inside the local helper
+    that the condition calls); implementations that add exactly the month difference (target month = end's month) do not loop."""
+    rr = RuleResult("R09.18", "searching implementations of _months_between catch the OverflowError of their overshoot probes (Period.between has an answer for every pair of dates in the calendar)", min_instances=2)
+    M = ctx.M
+    for f in sorted(set(M.func_of_node.values()), key=lambda x: x.qual):
+        if isinstance(f.node, ast.Lambda) or f.name != "_months_between" or "/calendars/" not in "/" + f.mod.rel:
+            continue
+        body_nodes = [n for n in ast.walk(f.node)]
+        loops = [n for n in body_nodes if isinstance(n, ast.While)]
+        rr.inst()
+        if not loops:
+            rr.ok({"implementation": f.qual, "kind": "direct (no search loop)"})
+            continue
+
+        def guarded(call: ast.Call) -> bool:
+            p = getattr(call, "_parent", None)
+            ch: ast.AST = call
+            while p is not None:
+                if isinstance(p, ast.Try) and any(ch is s or any(ch is x for x in ast.walk(s)) for s in p.body):
+                    for h in p.handlers:
+                        names = [unparse(x) for x in (h.type.elts if isinstance(h.type, ast.Tuple) else [h.type])] if h.type is not None else ["BaseException"]
+                        if any(nm.split(".")[-1] in ("OverflowError", "ArithmeticError", "Exception", "BaseException") for nm in names):
+                            return True
+                ch, p = p, getattr(p, "_parent", None)
+            return False
+
+        local_defs = {n.name: n for n in body_nodes if isinstance(n, ast.FunctionDef) and n is not f.node}
+        bad = None
+        for w in loops:
+            for c in ast.walk(w.test):
+                if not isinstance(c, ast.Call):
+                    continue
+                if isinstance(c.func, ast.Attribute) and c.func.attr == "_add_months" and not guarded(c):
+                    bad = bad or c
+                if isinstance(c.func, ast.Name) and c.func.id in local_defs:
+                    for d in ast.walk(local_defs[c.func.id]):
+                        if isinstance(d, ast.Call) and isinstance(d.func, ast.Attribute) and d.func.attr == "_add_months" and not guarded(d):
+                            bad = bad or d
+        if bad is None:
+            rr.ok({"implementation": f.qual, "kind": "search; overshoot probes caught"})
+        else:
+            rr.fail(f.qual, f"the search loop probes `{unparse(bad)[:60]}` beyond `end` without catching OverflowError: Period.between(..., MONTHS) raises when `end` lies in the last (or first) month of the calendar", ctx.loc(f, bad))
     return rr
